@@ -105,6 +105,77 @@ Proof.
     apply IH; [|lia]. apply mp_header_len in H. simpl in Hb. lia.
 Qed.
 
+Lemma mp_skip_S f k c rest :
+  mp_skip (S f) k (c :: rest) =
+  if (k =? 0)%N then SkOk (c :: rest)
+  else match mp_header c rest with None => SkErr | Some (ch, r) => mp_skip f (k - 1 + ch) r end.
+Proof. reflexivity. Qed.
+
+Lemma mp_skip_nil f k : mp_skip f k [] = if (k =? 0)%N then SkOk [] else SkErr.
+Proof. destruct f; reflexivity. Qed.
+
+Lemma mp_skip_0 f b : mp_skip f 0 b = SkOk b.
+Proof. destruct f; reflexivity. Qed.
+
+(** skipping m + n values = skipping m, then n *)
+Lemma mp_skip_split : forall f m n b, (length b <= f)%nat ->
+  mp_skip f (m + n) b = match mp_skip f m b with SkOk r1 => mp_skip f n r1 | e => e end.
+Proof.
+  induction f as [|f IH]; intros m n b Hb;
+    (destruct (m =? 0)%N eqn:Hm;
+     [apply N.eqb_eq in Hm; subst m; rewrite N.add_0_l, mp_skip_0; reflexivity|]).
+  - destruct b; [|simpl in Hb; lia]. rewrite !mp_skip_nil, Hm.
+    replace (m + n =? 0)%N with false by lia. reflexivity.
+  - destruct b as [|c rest].
+    + rewrite !mp_skip_nil, Hm. replace (m + n =? 0)%N with false by lia. reflexivity.
+    + rewrite !mp_skip_S. rewrite Hm. replace (m + n =? 0)%N with false by lia.
+      destruct (mp_header c rest) as [[ch r]|] eqn:H; [|reflexivity].
+      pose proof (mp_header_len _ _ _ _ H) as Hl. simpl in Hb.
+      replace (m + n - 1 + ch)%N with ((m - 1 + ch) + n)%N by lia.
+      rewrite (IH (m - 1 + ch)%N n r ltac:(lia)).
+      destruct (mp_skip f (m - 1 + ch) r) as [r1| |] eqn:K; try reflexivity.
+      apply mp_skip_len in K. symmetry. apply mp_skip_more; lia.
+Qed.
+
+Definition dk_result (d : dskres) : skres :=
+  match d with DkOk r _ => SkOk r | DkErr => SkErr | DkOutOfFuel => SkOutOfFuel end.
+
+(** the recursive Skip and the counting Skip are the same function of the input *)
+Theorem skip_depth_agrees : forall f k b, (length b <= f)%nat -> dk_result (skip_depth f k b) = mp_skip f k b.
+Proof.
+  induction f as [|f IH]; intros k b Hb.
+  - destruct b; [|simpl in Hb; lia]. cbn [skip_depth mp_skip]. destruct (k =? 0)%N; reflexivity.
+  - destruct b as [|c rest]; [cbn [skip_depth mp_skip]; destruct (k =? 0)%N; reflexivity|].
+    rewrite mp_skip_S. cbn [skip_depth]. destruct (k =? 0)%N eqn:Hk; [reflexivity|].
+    destruct (mp_header c rest) as [[ch r]|] eqn:H; [|reflexivity].
+    pose proof (mp_header_len _ _ _ _ H) as Hl. simpl in Hb.
+    replace (k - 1 + ch)%N with (ch + (k - 1))%N by lia.
+    rewrite (mp_skip_split f ch (k - 1) r ltac:(lia)).
+    rewrite <- (IH ch r ltac:(lia)).
+    destruct (skip_depth f ch r) as [r1 d1| |] eqn:K1; cbn [dk_result]; try reflexivity.
+    assert (length r1 <= length r)%nat.
+    { pose proof (IH ch r ltac:(lia)) as E. rewrite K1 in E. cbn [dk_result] in E. symmetry in E.
+      apply mp_skip_len in E. exact E. }
+    rewrite <- (IH (k - 1)%N r1 ltac:(lia)).
+    destruct (skip_depth f (k - 1) r1) as [r2 d2| |]; reflexivity.
+Qed.
+
+(** Go's Skip frames are never stacked deeper than the number of bytes consumed *)
+Theorem skip_depth_bounded : forall f k b r d, skip_depth f k b = DkOk r d -> (length r + d <= length b)%nat.
+Proof.
+  induction f as [|f IH]; intros k b r d; cbn [skip_depth].
+  - destruct (k =? 0)%N; [intro E; inversion E; subst; lia|].
+    destruct b as [|c rest]; [discriminate|]. destruct (mp_header c rest) as [[ch r0]|]; discriminate.
+  - destruct (k =? 0)%N; [intro E; inversion E; subst; lia|].
+    destruct b as [|c rest]; [discriminate|].
+    destruct (mp_header c rest) as [[ch r0]|] eqn:H; [|discriminate].
+    pose proof (mp_header_len _ _ _ _ H) as Hl.
+    destruct (skip_depth f ch r0) as [r1 d1| |] eqn:K1; try discriminate.
+    destruct (skip_depth f (k - 1) r1) as [r2 d2| |] eqn:K2; try discriminate.
+    apply IH in K1. apply IH in K2. intro E. injection E as <- <-. cbn [length].
+    destruct d2; lia.
+Qed.
+
 Lemma mp_read_uint_len n rest z r : mp_read_uint n rest = Some (z, r) -> (length r <= length rest)%nat.
 Proof.
   unfold mp_read_uint. destruct (take n rest); [|discriminate]. intro E. inversion E; subst.
